@@ -2,6 +2,7 @@
 # usage: [MUT_BASE=<commit>] mut.sh <patch> <check-id>...  -- run checks against a scratch copy with the patch applied
 patch=$1; shift
 base=${MUT_BASE:-$(git -C /repo rev-parse HEAD)}
+[ -d /tmp/mut/.git ] || [ -f /tmp/mut/.git ] || git -C /repo worktree add -q --detach /tmp/mut $base  # scratch worktree, outside /repo and /verif; remove with `git -C /repo worktree remove --force /tmp/mut`
 cd /tmp/mut && git checkout -q -- . && git checkout -q --detach $base && git apply "$patch" || { echo "PATCH DOES NOT APPLY on $base"; exit 2; }
 cd /verif
 for id in "$@"; do VERIF_REPO=/tmp/mut VERIF_BUILD=/tmp/mutbuild ./check $id 2>&1 | grep -v "^KNOWN-FINDING" | tail -5 | cut -c1-420; done
